@@ -50,7 +50,7 @@ def cases(rng, tier):
         for f in FUNCS:
             for _ in range(1 if tier == "quick" else 2):
                 dt = rng.choice(_dtypes_for(f))
-                p = {"lens": lens, "f": f, "dtype": dt, "vseed": rng.randint(0, 9999), "mode": rng.choice(["small", "small", "dup", "extreme"])}
+                p = {"lens": lens, "f": f, "dtype": dt, "vseed": rng.randint(0, 9999), "mode": rng.choice(["small", "small", "dup", "extreme", "dupx"])}
                 if f == "diff":
                     p["n"] = rng.choice([1, 1, 2, 3, 4])
                 out.append(p)
@@ -86,6 +86,13 @@ def _vals(p):
         if dt.kind == "f":
             return np.array([rnd.choice([1.5, -0.5, 2.0]) for _ in range(n)], dtype=dt)
         return np.array([rnd.choice([3, 1, 2]) for _ in range(n)], dtype=dt)
+    if p["mode"] == "dupx":
+        # repeated SPECIAL values: +-inf, NaN, dtype extremes (ties among extremes, inf - inf, wrap-around at the ends)
+        pool = gens.cell_values(p["dtype"], 6, rnd, mode="distinct")
+        if dt.kind == "f":
+            pool = np.array([np.inf, -np.inf, 1.5, np.inf, -np.inf, 0.0], dtype=dt) if rnd.random() < 0.7 else pool
+        k = rnd.randint(2, 4)
+        return np.array([pool[rnd.randrange(k)] for _ in range(n)], dtype=dt)
     v = gens.cell_values(p["dtype"], max(n, 1), rnd, mode="distinct")[:n]
     return v
 
